@@ -100,7 +100,8 @@ def gen_dag(rng, tier):
     nested = rng.random() < 0.4
     return {'steps': names, 'deps': deps, 'derivers': ['d%d' % i for i in range(nd)], 'nested': nested,
             'timesteps': [rng.choice([1.0, 2.0]) for _ in range(rng.choice([1, 2]))],
-            'structural': rng.random() < 0.35, 'listing': rng.sample(names, len(names))}
+            'structural': rng.random() < 0.35, 'listing': rng.sample(names, len(names)),
+            'entry': rng.choice(['parts', 'parts', 'store'])}
 
 
 def build(scn, perm=None):
@@ -147,8 +148,16 @@ def build(scn, perm=None):
         for b in reversed(base):
             out = {b: out}
         return out
-    eng = Engine(processes=nest(procs), steps=nest(steps), flow=nest(flow), topology=nest(topo),
-                 initial_state=nest(init) if init else {}, display_info=False)
+    entry = scn.get('entry', 'parts')
+    if entry == 'store':
+        # the same composite loaded through the store it generates (flow and steps are read back out of the hierarchy)
+        from vivarium.core.composer import Composite
+        comp = Composite({'processes': nest(procs), 'steps': nest(steps), 'flow': nest(flow), 'topology': nest(topo),
+                          'state': nest(init) if init else {}})
+        eng = Engine(store=comp.generate_store(), display_info=False)
+    else:
+        eng = Engine(processes=nest(procs), steps=nest(steps), flow=nest(flow), topology=nest(topo),
+                     initial_state=nest(init) if init else {}, display_info=False)
     return eng, base
 
 
@@ -255,6 +264,149 @@ def check_c05(scn):
     return fails[:4]
 
 
+class GGrow(Process):
+    defaults = {'timestep': 1.0}
+
+    def ports_schema(self):
+        return {'v': {'x': {'_default': 0, '_updater': 'accumulate', '_emit': True}}}
+
+    def next_update(self, timestep, states):
+        return {'v': {'x': 1}}
+
+
+class GDouble(Step):
+    def ports_schema(self):
+        return {'v': {'x': {'_default': 0}, 'y': {'_default': 0, '_updater': 'set', '_emit': True}}}
+
+    def next_update(self, timestep, states):
+        return {'v': {'y': 2 * states['v']['x']}}
+
+
+class GSucc(Step):
+    def ports_schema(self):
+        return {'v': {'y': {'_default': 0}, 'z': {'_default': 0, '_updater': 'set', '_emit': True}}}
+
+    def next_update(self, timestep, states):
+        return {'v': {'z': states['v']['y'] + 1}}
+
+
+class GSpawner(Process):
+    """adds agents at scripted ticks through _generate; optionally deletes one later"""
+    defaults = {'timestep': 1.0, 'script': {}}
+
+    def __init__(self, parameters=None):
+        super().__init__(parameters)
+        self.k = 0
+
+    def ports_schema(self):
+        return {'agents': {}}
+
+    def next_update(self, timestep, states):
+        self.k += 1
+        ops = self.parameters['script'].get(self.k)
+        if not ops:
+            return {}
+        up = {}
+        for op in ops:
+            if op[0] == 'generate':
+                up.setdefault('_generate', []).append(agent_spec(op[1], op[2]))
+            elif op[0] == 'delete':
+                up.setdefault('_delete', []).append(op[1])
+        return {'agents': up}
+
+
+def agent_spec(key, style):
+    """an agent with a process and two chained steps: legacy derivers (no flow), derivers listed among the processes, or
+    flow steps (chain or one layer)"""
+    topo = {'grow': {'v': ('v',)}, 'double': {'v': ('v',)}, 'succ': {'v': ('v',)}}
+    d = {'key': key, 'processes': {'grow': GGrow()}, 'topology': topo, 'initial_state': {}}
+    if style == 'legacy-steps':
+        d['steps'] = {'double': GDouble(), 'succ': GSucc()}
+    elif style == 'legacy-in-processes':
+        d['processes'].update({'double': GDouble(), 'succ': GSucc()})
+    elif style == 'flow-chain':
+        d['steps'] = {'double': GDouble(), 'succ': GSucc()}
+        d['flow'] = {'double': [], 'succ': [('double',)]}
+    elif style == 'flow-layer':
+        d['steps'] = {'double': GDouble(), 'succ': GSucc()}
+        d['flow'] = {'double': [], 'succ': []}
+    return d
+
+
+GEN_STYLES = ['legacy-steps', 'legacy-in-processes', 'flow-chain', 'flow-layer']
+
+
+def check_generated(case):
+    """steps that join (or exist) through structural updates run in every later step phase, in the documented order:
+    legacy derivers one at a time in declaration order (so z == y + 1 == 2x + 1 after every phase), a flow chain likewise,
+    two steps of one layer see the same snapshot (z lags: z == previous y + 1)"""
+    fails = []
+    script = {int(k): v for k, v in case['script'].items()}
+    first = agent_spec('a0', case['a0'])
+    kw = {}
+    if 'steps' in first:
+        kw['steps'] = {'agents': {'a0': first['steps']}}
+    if 'flow' in first:
+        kw['flow'] = {'agents': {'a0': first['flow']}}
+    try:
+        eng = Engine(processes={'spawner': GSpawner({'script': script}), 'agents': {'a0': first['processes']}},
+                     topology={'spawner': {'agents': ('agents',)}, 'agents': {'a0': first['topology']}},
+                     display_info=False, emitter='null', **kw)
+        styles = {'a0': case['a0']}
+        born = {'a0': 0}
+        prev_y = {}
+        for tick in range(1, case['ticks'] + 1):
+            for op in script.get(tick, []):
+                if op[0] == 'generate':
+                    styles[op[1]] = op[2]
+                    born[op[1]] = tick
+            eng.update(1)
+            agents = eng.state.get_value().get('agents', {})
+            for op in script.get(tick, []):
+                if op[0] == 'delete' and op[1] in agents:
+                    fails.append('tick %d: deleted agent %s still exists' % (tick, op[1]))
+                if op[0] == 'delete':
+                    styles.pop(op[1], None)
+            for name, style in styles.items():
+                if name not in agents:
+                    fails.append('tick %d: agent %s is missing' % (tick, name))
+                    continue
+                v = agents[name]['v']
+                x, y, z = v['x'], v['y'], v['z']
+                if y != 2 * x:
+                    fails.append('tick %d: agent %s (%s): y=%r but x=%r: its step `double` did not run in this phase'
+                                 % (tick, name, style, y, x))
+                if style == 'flow-layer':
+                    want = prev_y.get(name, 0) + 1 if (name in prev_y) else None
+                    if want is not None and z != want:
+                        fails.append('tick %d: agent %s (one layer): z=%r, expected %r (the y of the previous phase + 1: '
+                                     'steps of one layer see one snapshot)' % (tick, name, z, want))
+                elif z != y + 1:
+                    fails.append('tick %d: agent %s (%s): z=%r but y=%r: `succ` must run after `double` in every phase'
+                                 % (tick, name, style, z, y))
+                prev_y[name] = y
+    except Exception as e:
+        fails.append('engine raised %s: %s' % (type(e).__name__, str(e)[:200]))
+    return fails[:3]
+
+
+def gen_generated(rng):
+    script = {}
+    names = ['a1', 'a2', 'a3']
+    alive = []
+    for tick in (1, 2, 3, 4):
+        ops = []
+        if names and rng.random() < 0.6:
+            n = names.pop(0)
+            ops.append(['generate', n, rng.choice(GEN_STYLES)])
+            alive.append(n)
+        elif alive and rng.random() < 0.3:
+            ops.append(['delete', alive.pop(0)])
+        if ops:
+            script[str(tick)] = ops
+    return {'a0': rng.choice(GEN_STYLES), 'script': script, 'ticks': 6}
+
+
 def check_c04(scn, n_perms):
     """identical emitted trajectory under permutation of the listing order"""
     fails = [f for f in check_c05(scn) if ('saw' in f or 'shown' in f or 'different states' in f)]
@@ -294,8 +446,12 @@ def main():
     a = ap.parse_args()
     n_perms = 6 if a.tier == 'quick' else 24
     if a.replay:
-        scn = json.load(open(a.replay))['scenario']
-        fails = check_c05(scn) if a.prop in ('C05', 'C07') else check_c04(scn, n_perms)
+        rec = json.load(open(a.replay))
+        scn = rec['scenario']
+        if rec.get('kind') == 'generated':
+            fails = check_generated(scn)
+        else:
+            fails = check_c05(scn) if a.prop in ('C05', 'C07', 'C10') else check_c04(scn, n_perms)
         L.emit_result({'status': 'reproduced' if fails else 'not-reproduced', 'failed': fails})
         return
     n = {'quick': 120, 'thorough': 3000}[a.tier]
@@ -304,7 +460,7 @@ def main():
     for i in range(n):
         scn = json.loads(json.dumps(gen_dag(rng, a.tier)))
         evaluations += 1
-        fails = check_c05(scn) if a.prop in ('C05', 'C07') else check_c04(scn, n_perms)
+        fails = check_c05(scn) if a.prop in ('C05', 'C07', 'C10') else check_c04(scn, n_perms)
         if any(scn['deps'].values()):
             distinct.add(json.dumps(scn, sort_keys=True))
         if len(samples) < 2:
@@ -314,6 +470,18 @@ def main():
             failures.append({'id': '%s.bounded.flow#%d: %s' % (a.prop, i, fails[0][:260]), 'replay': rp})
             if len(failures) >= 3:
                 break
+    # steps that join the simulation through structural updates (C05: order in every later phase; C04: one snapshot per layer)
+    gcases = [{'a0': 'legacy-steps', 'script': {'1': [['generate', 'a1', st]]}, 'ticks': 5} for st in GEN_STYLES]
+    gcases += [gen_generated(rng) for _ in range(20 if a.tier == 'quick' else 400)]
+    for gi, case in enumerate(gcases):
+        if len(failures) >= 3:
+            break
+        evaluations += 1
+        fails = check_generated(case)
+        distinct.add(json.dumps(case, sort_keys=True))
+        if fails:
+            rp = L.write_replay(a.out, a.prop, 'gen%d' % gi, case, fails, kind='generated', extra={'driver': 'bounded.steps'})
+            failures.append({'id': '%s.bounded.generated#%d: %s' % (a.prop, gi, fails[0][:260]), 'replay': rp})
     L.emit_result({'status': 'violated' if failures else 'ok', 'evaluations': evaluations * (1 if a.prop == 'C05' else n_perms),
                    'distinct_nontrivial': len(distinct), 'failures': failures, 'samples': samples,
                    'rule': 'seeded random flow DAGs (+derivers, nesting, structural variant); non-trivial = at least one '
